@@ -454,6 +454,40 @@ def cycle_left_out_directed(ctx):
     return ok
 
 
+def shared_name_scope_directed(ctx):
+    """Directed: one value name with two producers (exclusive branches), the LATER of which also feeds the common consumer
+    another value. Graphs whose entry points / selection keep only the later producer are derived, looked at and run;
+    the receiver, its bind() siblings and its as_node() wrapper - structure (edges with their value names), structure
+    hash, diagram-relevant data, inputs and runs - stay those of twins that never had such relatives."""
+    for kind in ("ifelse", "route"):
+        gate = ({"k": "ifelse", "name": "pick", "params": [{"n": "s"}], "key": "s", "t": "a1", "f": "a2", "table": [True, False], "open": False} if kind == "ifelse"
+                else {"k": "route", "name": "pick", "params": [{"n": "s"}], "key": "s", "targets": ["a1", "a2"], "table": ["a1", "a2"], "open": False})
+        spec = {"name": "shn", "nodes": [
+            gate,
+            {"k": "fn", "name": "a1", "params": [{"n": "x"}], "outs": ["v"]},
+            {"k": "fn", "name": "a2", "params": [{"n": "x"}], "outs": ["v", "w"]},
+            {"k": "fn", "name": "c", "params": [{"n": "v"}, {"n": "w", "d": "def:w"}], "outs": ["out"]},
+        ], "bind": {}}
+        derivations = [[("entry", [["a2"]])], [("bind", [{"x": "b:x"}])], [("as_node", ["wrapped"])], [("entry", [["a2"]]), ("select", [["out"]])]]
+        for order in ("derived-first", "receiver-first"):
+            rt.reset_program()
+            root = build_program(spec).graph
+            case = {"spec": spec, "ops": f"directed shared-name scope, {order}"}
+            lives = [Live(root, [], "graph")]
+            for recipe in derivations:
+                o = root
+                for op in recipe:
+                    o = apply_op(o, *op)
+                    ctx.obs["operations"] += 1
+                lives.append(Live(o, list(recipe), "node" if recipe[-1][0] == "as_node" else "graph"))
+            seq = [lives[1], lives[4], lives[0], lives[2], lives[3], lives[1]] if order == "derived-first" else [lives[0], lives[2], lives[1], lives[4], lives[0], lives[3]]
+            for n_, lv in enumerate(seq):
+                ctx.obs["shared_name_scope_checks"] += 1
+                if not compare(ctx, spec, lv, case, f"{order}: object {n_} of the sequence"):
+                    break
+    ctx.case({"directed": "shared-name-scope"}, True)
+
+
 def run(ctx):
     n = 110 if ctx.tier == "quick" else 3200
     core.WARM_P = 0.0
@@ -463,5 +497,6 @@ def run(ctx):
     if ctx.shard[0] == 0:
         entry_chain_directed(ctx)
         cycle_left_out_directed(ctx)
+        shared_name_scope_directed(ctx)
     for i in range(n):
         history(ctx, i)
